@@ -382,4 +382,25 @@ def run (m : Mode) (units : List (UnitHdr × List Entry)) : Outcome :=
         | .error e => .convErr e
         | .ok us => .converted parts us
 
+/-- split DWARF: `FilterUnitSection::new_split`, `ConvertUnit::convert_split_with_filter`
+(`ConvertSplitUnitSection::new_with_filter` + `new_with_offsets`): only the first unit of the split
+section is converted and every reachable offset is reserved in it, without a per-unit scan -/
+def runSplit (m : Mode) (units : List (UnitHdr × List Entry)) : Outcome :=
+  match buildDeps m units with
+  | .panic w => .panic w
+  | .diverge => .diverge
+  | .err _ => .panic "unexpected"
+  | .ok d =>
+    match getReachable d with
+    | .panic w => .panic w
+    | .diverge => .diverge
+    | .err _ => .panic "unexpected"
+    | .ok offsets =>
+      match units with
+      | [] => .panic "MissingSplitUnit"
+      | ue :: _ =>
+        match convertUnits (ue.1.rootOff :: offsets) [ue] with
+        | .error e => .convErr e
+        | .ok us => .converted [offsets] us
+
 end Gimli.Filter
